@@ -182,6 +182,7 @@ def check_tree(schema, mode, tree, src):
 
 
 def run(chk):
+    interaction_stream(chk)          # correspondence on the interaction corpus (tools/orch/interact.py)
     rng = random.Random(chk.seed)
     schema = json.load(open(os.path.join(R.WORK, 'ast_schema.json')))
     n = 800 if chk.tier == 'quick' else 12000
